@@ -306,7 +306,13 @@ func c06Run(rc *simrt.RunCtx, tail bool) {
 			if now < bound {
 				continue
 			}
-			if pc, ps := trC.pending(), trS.pending(); pc+ps > 0 && rc.Now() >= healAt {
+			pc, ps := trC.pending(), trS.pending()
+			if pc+ps > 0 {
+				// a call that is just returning is still counted for an instant
+				time.Sleep(200 * time.Millisecond)
+				pc, ps = trC.pending(), trS.pending()
+			}
+			if pc+ps > 0 && rc.Now() >= healAt {
 				rc.Violate("c06.calls-hang-after-close", "blocked-call", "connection closed at %v (keepalive %v/%v/%v); %v later %d client and %d server application calls are still blocked", closedAt, pingC, pingS, pong, now-closedAt, pc, ps)
 			} else if rc.Now() >= healAt {
 				// new calls must fail too
